@@ -389,3 +389,7 @@ def run(run):
     quick = run.tier == "quick"
     progcheck.run_programs(run, {"C06"}, 120 if quick else 3000, profile="l1", own={"C06"}, with_steps=False)
     progcheck.run_programs(run, {"C06"}, 80 if quick else 2000, profile="l2", own={"C06"}, with_steps=False)
+    # divisions computed from ordered data (set_index(sorted=True) / compute_current_divisions(set_divisions=True)); last, so
+    # that the random draws of the families above are unchanged
+    import c06_resolve
+    c06_resolve.resolve_layer(run, rt, quick)
